@@ -129,7 +129,8 @@ def run_check(check_id: str, tier: str, seed: int) -> int:
         else:
             real.append(v)
 
-    os.makedirs(os.path.join(ROOT, "replays"), exist_ok=True)
+    out_root = os.environ.get("VERIF_OUT_DIR", ROOT)  # evaluation of seeded changes writes elsewhere
+    os.makedirs(os.path.join(out_root, "replays"), exist_ok=True)
     printed = set()
     lines = []
     kinds_seen: dict = {}
@@ -141,7 +142,7 @@ def run_check(check_id: str, tier: str, seed: int) -> int:
         printed.add(key)
         kinds_seen[v["kind"]] = kinds_seen.get(v["kind"], 0) + 1
         hh = hashlib.blake2b(json.dumps(v, sort_keys=True, default=str).encode(), digest_size=6).hexdigest()
-        path = os.path.join(ROOT, "replays", f"{check_id}-{v['kind']}-{hh}.json")
+        path = os.path.join(out_root, "replays", f"{check_id}-{v['kind']}-{hh}.json")
         v2 = dict(v)
         v2["property"] = check_id
         v2["tier"] = tier
@@ -181,8 +182,8 @@ def run_check(check_id: str, tier: str, seed: int) -> int:
         "property_id": check_id, "tier": tier, "seed": seed, "level": "model_checking", "coverage": cov,
         "assumptions": info["assumptions"], "wall_s": round(wall, 2), "violations": len(real),
     }
-    os.makedirs(os.path.join(ROOT, "evidence"), exist_ok=True)
-    with open(os.path.join(ROOT, "evidence", f"{check_id}.json"), "w") as f:
+    os.makedirs(os.path.join(out_root, "evidence"), exist_ok=True)
+    with open(os.path.join(out_root, "evidence", f"{check_id}.json"), "w") as f:
         json.dump(ev, f, indent=1)
     print(f"{check_id} tier={tier} seed={seed} cases={tot['cases']} executions={tot['evaluations']} states={tot['states']} "
           f"transitions={tot['transitions']} nontrivial={tot['nontrivial']} outcomes={tot['outcomes']} "
